@@ -11,5 +11,3 @@ if [ "$PATCH" = "-" ]; then PATCH=$D/p.diff; cat > "$PATCH"; fi
 (cd "$D/repo" && GOFLAGS=-mod=mod GOPROXY=off GOSUMDB=off go build ./engine ./builder ./context ./internal/... ) || { echo "mutant does not build"; exit 2; }
 cd /verif && VERIF_REPO="$D/repo" VERIF_SECS=$SECS VERIF_SCRATCH="$D" ./check "$PROP" --tier quick 2>&1 | grep -E "^(check|violation|VIOLATION|KNOWN)" | cut -c1-400 | head -${LINES_MAX:-12}
 echo "exit=${PIPESTATUS[0]}"
-# do not keep replays produced against a mutant
-git -C /verif status --porcelain replays 2>/dev/null | awk '{print $2}' | xargs -r rm -rf
